@@ -3,6 +3,7 @@ package service
 import (
 	"cmp"
 	"context"
+	"fmt"
 	"log/slog"
 	"os"
 	"time"
@@ -107,6 +108,19 @@ func (h *SignalHandler) Handle(ctx context.Context) (status osutil.ExitCode) {
 	panic("unexpected close of h.signal")
 }
 
+// shutdownService shuts down a single service, turning a panic in its Shutdown
+// method into an error so that the remaining services are still shut down.
+func (h *SignalHandler) shutdownService(ctx context.Context, s Interface) (err error) {
+	defer func() {
+		if v := recover(); v != nil {
+			slogutil.PrintRecovered(ctx, h.logger, v)
+			err = fmt.Errorf("panic: %v", v)
+		}
+	}()
+
+	return s.Shutdown(ctx)
+}
+
 // shutdown gracefully shuts down all services.  status is
 // [osutil.ExitCodeSuccess] on success and [osutil.ExitCodeFailure] on error.
 func (h *SignalHandler) shutdown(ctx context.Context) (status osutil.ExitCode) {
@@ -114,8 +128,7 @@ func (h *SignalHandler) shutdown(ctx context.Context) (status osutil.ExitCode) {
 
 	status = osutil.ExitCodeSuccess
 	for i := len(h.services) - 1; i >= 0; i-- {
-		s := h.services[i]
-		err := s.Shutdown(ctx)
+		err := h.shutdownService(ctx, h.services[i])
 		if err == nil {
 			continue
 		}
